@@ -56,6 +56,9 @@ def project(reply, flt):
             if m is not None:
                 out.append(proj(c, m))
         return out
+    if f.tag == root.tag:
+        # the filter spells the path from the very top: its root is the reply envelope itself
+        return proj(root, f)
     new_root = ET.Element(root.tag, dict(root.attrib))
     for c in root:
         if c.tag == f.tag:
